@@ -193,14 +193,17 @@ static CaseResult system_case(Tape &t)
 {
 	CaseResult r;
 	tun::Run R;
+	tun::long_dom() = t.chance(1, 3);
+	bool longd = tun::long_dom();
 	tun::run_tunnel(t, tun::CLEAN, R);
+	tun::long_dom() = false;
 	r.render = "system: " + R.render.substr(0, 500) + scn::fmt(" | client queries %llu, names >= 200 chars %llu", (unsigned long long)R.wm.n_cli_dns, (unsigned long long)R.wm.n_long_q);
 	if (R.v.failed("C08")) r.fail(R.v.first["C08"].sig, R.v.first["C08"].why + "\n" + r.render);
 	// "the server's extraction of the data part of that name yields exactly that prefix": on a clean path every packet the client read
 	// and sent must come out of the real server's reassembly (sizes include last fragments of exactly 1 and 2 bytes)
 	if (r.ok && R.v.failed("C02") && R.v.first["C02"].sig == "C02:lost-upstream") r.fail("C08:system-extraction-fails", R.v.first["C02"].why + "\n" + r.render);
 	r.nontrivial = R.up && R.cfg.maxlen != 0;
-	r.cls("system"); if (R.cfg.maxlen) r.cls("system:-M-set"); if (R.cfg.frag < 0) r.cls("system:fragsize-autoprobe"); if (R.n_boundary) r.cls("system:last-fragment-of-1-2-F-1-or-F-bytes");
+	r.cls("system"); if (R.cfg.maxlen) r.cls("system:-M-set"); if (longd) r.cls("system:-M-within-24..32-of-an-84-character-domain"); if (R.cfg.frag < 0) r.cls("system:fragsize-autoprobe"); if (R.n_boundary) r.cls("system:last-fragment-of-1-2-F-1-or-F-bytes");
 	return r;
 }
 
